@@ -500,6 +500,10 @@ pub fn combine(a: &RunStep, b: &RunStep) -> RunStep {
     }
 }
 
+fn unsigned_from_u8(v: &[u8]) -> Number {
+    Number::from_bytes_be(num_bigint::Sign::Plus, v)
+}
+
 pub fn flatten_signed_int(v: Number) -> Number {
     let mut sign_digits = v.to_signed_bytes_le();
     sign_digits.push(0);
@@ -536,6 +540,14 @@ pub fn run_step(
                 SExp::Integer(l, v) => {
                     /* An integer picks a value from the context */
                     let flat_v = flatten_signed_int(v.clone());
+                    if flat_v == bi_zero() {
+                        // Path 0 is nil in every environment.
+                        return Ok(RunStep::OpResult(
+                            l.clone(),
+                            Rc::new(SExp::Nil(l.clone())),
+                            Rc::new(step_.clone()),
+                        ));
+                    }
                     return Ok(RunStep::OpResult(
                         l.clone(),
                         choose_path(
@@ -549,15 +561,16 @@ pub fn run_step(
                     ));
                 }
                 SExp::QuotedString(l, _, v) => {
+                    // A path is the unsigned value of the atom's bytes.
                     step = RunStep::Step(
-                        Rc::new(SExp::Integer(l.clone(), number_from_u8(v))),
+                        Rc::new(SExp::Integer(l.clone(), unsigned_from_u8(v))),
                         context.clone(),
                         parent.clone(),
                     );
                 }
                 SExp::Atom(l, v) => {
                     step = RunStep::Step(
-                        Rc::new(SExp::Integer(l.clone(), number_from_u8(v))),
+                        Rc::new(SExp::Integer(l.clone(), unsigned_from_u8(v))),
                         context.clone(),
                         parent.clone(),
                     );
